@@ -419,7 +419,10 @@ def replay(hosts: dict, beh: dict, check: set[str]) -> tuple[list, int]:
                 nowv = (id(ch) if ch is not None else None, ntext(ch))
                 if nowv != sib[sj['name']]:
                     add('frame', ev, f'sibling {sj["name"]} changed: {sib[sj["name"]][1]!r} -> {nowv[1]!r}')
-            if op == 'set' and getattr(m, s['name']) is not donor:
+            now_child = getattr(m, s['name'])
+            if op == 'set' and (now_child is not donor if s['kind'] != 'rep'
+                                else getattr(now_child, 'repeated', None) is not getattr(donor, 'repeated', donor)):
+                # (a whole repeated field is handed over as a wrapper: the list inside it is what must be the child)
                 add('frame', ev, 'the assigned node is not the slot\'s child afterwards')
             a1, b1 = store.get_index(m.first_token), store.get_index(m.last_token)
             outside1 = now_toks[:a1] + now_toks[b1 + 1:]
